@@ -41,7 +41,7 @@ Proof.
   - inversion Hr; subst. fin.
   - inversion Hr; subst. fin.
   - (* Force *)
-    destruct v as [z|fl|b|s|s|l|d|f|i|sp l| |u]; try (eapply IH; eauto).
+    destruct v as [z|fl|b|s|s|l|d|f|i|sp l| |u|cr ci]; try (eapply IH; eauto).
     destruct (get h u) as [cl|] eqn:G.
     2:{ rewrite (hrel_get_none _ _ _ _ Hh G). inversion Hr; subst. fin. }
     destruct (hrel_get _ _ _ _ _ Hh G) as (cl' & G' & Ee & Ec & Ep & Ra). rewrite G', <- Ec.
